@@ -19,6 +19,7 @@ Three clauses of the property:
                                       whenever that has the same (round, root) and its round is not below State.Round.
 -/
 import Ssv.Proofs.HeightsTop
+import Ssv.Proofs.HeightsRepaired
 
 namespace Ssv.Heights
 
@@ -347,5 +348,32 @@ theorem C15_historical_replaced_monotone_full_refuted : ¬ C15_historical_replac
     ⟨⟨5, 1, true, false, [⟨1, 110, [1, 2, 3]⟩]⟩, ⟨1, 110, [1, 2, 3]⟩⟩ (by decide) (by decide)
   revert h
   decide
+
+/-! ## the candidate repairs (notes/C15.md) — statements about `Ssv/Model/HeightsRepaired.lean`, NOT about the pinned tree
+
+The two repairs are not applied to /repo; these theorems answer "would the repaired code satisfy the full clauses?" for
+the model of the repaired code (which agrees with a patched scratch tree on every generated history, see notes). -/
+
+/-- repaired model, FULL clause 3 — from ANY state, for every op: the highest record is never lost and changes only to a
+    higher height or, at the same height, to a certificate with more signers (repair 1 puts the comparison with the
+    stored certificate into the store itself) -/
+theorem C15_repaired_model_highest_replaced_monotone (s : State) (op : Op) (a : Stored) (ha : s.s.highest = some a) :
+    ∃ b, (stepR s op).1.s.highest = some b ∧
+      ((b.inst.height = a.inst.height ∧ b.cert = a.cert) ∨ a.inst.height < b.inst.height ∨
+       (a.inst.height = b.inst.height ∧ a.cert.signers.length < b.cert.signers.length)) :=
+  stepR_highest_mono s op a ha
+
+/-- repaired model: the three refutation witnesses no longer go through (the full clause 1 for the repaired model is
+    not proved in Lean; it was searched on 2.3 million random model steps without a counterexample, see notes) -/
+theorem C15_repaired_model_witnesses_closed :
+    -- F3: the late consensus start for the reloaded height is refused, and the height is stored as highest
+    (stepR (runR (init true 3) witnessReload) .decide).2 = .refused ∧
+    ((runR (init true 3) witnessReload).s.highest.map (·.inst.height)) = some 5 ∧
+    -- F1: (round 1, 3 signers) does not replace (round 2, 4 signers)
+    ((stepR (runR (init false 3) [.start 5, .decided 5 2 110 [1, 2, 3, 4] true false])
+        (.decided 5 1 110 [1, 3, 4] true false)).1.s.highest.map (·.cert)) = some ⟨2, 110, [1, 2, 3, 4]⟩ ∧
+    -- F2: (round 1, 3 signers) does not replace (round 1, 4 signers) after compaction
+    ((stepR (runR (init false 3) [.decided 5 2 110 [1, 2, 3] true true, .decided 5 1 110 [1, 2, 3, 4] true true])
+        (.decided 5 1 110 [1, 2, 4] true true)).1.s.highest.map (·.cert)) = some ⟨1, 110, [1, 2, 3, 4]⟩ := by decide
 
 end Ssv.Heights
